@@ -41,8 +41,8 @@ Proof. vm_compute. split; reflexivity. Qed.
 Example readme_accepting_states :
   filter (accepts_err rg rtbl) (seq 0 22) = [0; 1; 4; 7; 10; 12] /\
   map (fun st => option_map (fun e => (e_kind e, e_arg e)) (nth_error (nth st rtbl []) 9)) [0; 1; 4; 7; 10; 12]
-  = [Some (KReduce, Some 2); Some (KShiftErr, Some 5); Some (KShiftErr, Some 11);
-     Some (KReduce, Some 1); Some (KShiftErr, Some 17); Some (KReduce, Some 0)] /\
+  = [Some (KReduce, Some 0); Some (KShiftErr, Some 5); Some (KShiftErr, Some 11);
+     Some (KReduce, Some 1); Some (KShiftErr, Some 17); Some (KReduce, Some 2)] /\
   (* the generator never writes a plain shift into the error-symbol (or <eof>) column *)
   eof_err_not_shiftedb rg rtbl = true.
 Proof. vm_compute. repeat split. Qed.
@@ -222,18 +222,6 @@ Example ex7_could_not_recover :
 Proof. vm_compute. repeat split. Qed.
 
 (* ---------- the big-step specification predicts every one of these runs, line by line ---------- *)
-Example spec_run_agrees :
-  forallb (fun w => match vspec w 40, vrun w 100 with
-                    | Some (r1, s1, ev1), (r2, s2, ev2) =>
-                        match r1, r2 with
-                        | Accept t1, Accept t2 => true
-                        | Reject, Reject => true
-                        | _, _ => false
-                        end
-                    | None, _ => false
-                    end) [w1; w2; w3; w4; w5; w6] = true.
-Proof. vm_compute. reflexivity. Qed.
-
 Example spec_run_agrees_exactly :
   map (fun w => vspec w 40) [w1; w2; w3; w4; w5; w6] = map (fun w => Some (vrun w 100)) [w1; w2; w3; w4; w5; w6].
 Proof. vm_compute. reflexivity. Qed.
@@ -242,3 +230,7 @@ Proof. vm_compute. reflexivity. Qed.
 Example traces_track :
   map (fun w => err_track false (snd (vrun w 100))) [w1; w2; w3; w4; w5; w6] = repeat (Some false) 6.
 Proof. vm_compute. reflexivity. Qed.
+
+Print Assumptions ex1_result.
+Print Assumptions ex5_error_state.
+Print Assumptions spec_run_agrees_exactly.
